@@ -40,8 +40,8 @@ def run(ck):
             feats[k] = feats.get(k, 0) + v
         src = pp_prog(p)
         if 'crash' in r:
-            if "F2" in cls and "F2" in findings:
-                bump("crash_in_F2_class"); ck.known(findings["F2"], src.replace("\n", " ")[:160]); continue
+            if "F3" in cls and "F3" in findings:
+                bump("crash_in_F3_class"); ck.known(findings["F3"], src.replace("\n", " ")[:160]); continue
             viol.append(("harness process died (memory corruption / abort) while running an accepted program", idx, {"rc": str(r['crash'])}))
             continue
         if "F13" in cls:
@@ -72,27 +72,27 @@ def run(ck):
                     w = ws['samples'][t] if t < len(ws['samples']) else None
                     if w is None or 'panic' in w:
                         bad.append(("wasm panic", w)); break
-                    ww = w['words']
+                    # the WASM host grows its storage on demand: cells never touched so far are absent (= zero)
+                    ww = w['words'] + [0] * max(0, total - len(w['words']))
                     if ww[:total] != s['words'] or any(x != 0 for x in ww[total:]):
                         bad.append(("flat state words differ between VM and WASM (sample %d)" % t, [s['words'], ww])); break
                 bump("traces_checked_on_impl")
                 if vm['skel'] not in seen_sk and vm['skel'] != "[]":
                     seen_sk.add(vm['skel'])
         if bad:
-            if "F2" in cls and "F2" in findings:
-                bump("failures_in_F2_class"); ck.known(findings["F2"], src.replace("\n", " ")[:160] + " -> " + str(bad[0][0]))
+            hit = [c for c in ("F3",) if c in cls and c in findings]
+            if hit:
+                bump("failures_in_known_class_" + hit[0]); ck.known(findings[hit[0]], src.replace("\n", " ")[:160] + " -> " + str(bad[0][0]))
             else:
                 viol.append((bad[0][0], idx, {"detail": bad[0][1]}))
             continue
         # ---------------- model vs implementation ----------------
-        if m is None or m.get('big') or vm is None:
+        if m is None or m.get('big') or vm is None or "F3" in cls:
             continue
         if not m.get('compiled'):
             disag.append(("model does not compile an accepted program", idx)); continue
-        if m['wf'] != (not ("F2" in cls)):
-            disag.append(("wf_prog disagrees with the generator's class", idx)); continue
-        if "F2" in cls:
-            continue
+        if not m['wf']:
+            disag.append(("wf_prog rejects a generated program", idx)); continue
         if m['skel'] != vm['skel']:
             disag.append(("published skeleton: model %s impl %s" % (m['skel'], vm['skel']), idx)); continue
         ok = True
